@@ -469,7 +469,7 @@ func init() {
 			"(syntax error; compile error after good statements: undefined name, shadowing a later definition, constant reassignment, function redefinition; run-time error / failing or panicking host builtin after known effects; " +
 			"cancellation or deadline inside a piece) and stale cancels of earlier pieces' contexts, under one seeded schedule. Three executions per history: W (whole program, one shot), A0 (fault-free session), A (session under test). " +
 			"non-trivial = at least one fault piece or stale cancel; distinct = distinct hash of trace and piece/fault layout",
-		Real: []string{"parser", "compiler.Compiler (incremental Compile)", "vm.VirtualMachine (Run, SetIP, TOS, Get, GlobalNames, reloadCode)", "risor.Config", "context"},
+		Real: []string{"parser", "compiler.Compiler (incremental Compile)", "vm.VirtualMachine (Run, SetIP, TOS, Get, GlobalNames, reloadCode, importModule)", "importer.FSImporter", "risor.Config", "context"},
 		Stub: []string{"REPL driver (restatement of cmd/risor/repl.getEvaluator)", "scheduler (sim)", "host builtins mark/emit/emits/hfail/hpanic"},
 		Assumptions: []string{
 			"the REPL driver mirrors cmd/risor/repl/repl.go:getEvaluator (parse, Compile, Run, SetIP(end) on run-time error)",
